@@ -79,7 +79,7 @@ def cases():
             yield {"f": "generate", "n": n, "raise_cond": raise_cond, "raise_iter": raise_iter}
         for delays in ([0], [0.0], [1.0], [0, 2.0], ["td0"], ["td1"], [1.0, 0, "td1"]):
             yield {"f": "generate_timed", "n": n, "delays": delays}
-    for d in (0, 0.0, 1.0, 2.5, "td1"):
+    for d in (0, 0.0, 1.0, 2.5, "td1", "td_frac", "td_day", "td_neg"):
         yield {"f": "timer", "d": d}
 
 
@@ -88,6 +88,12 @@ def delay_of(x):
         return timedelta(0)
     if x == "td1":
         return timedelta(seconds=1)
+    if x == "td_frac":
+        return timedelta(seconds=2, microseconds=250000)
+    if x == "td_day":
+        return timedelta(days=1, seconds=5)       # the `days` component counts
+    if x == "td_neg":
+        return timedelta(seconds=-1)              # normalised to days=-1, seconds=86399: still "already due"
     return x
 
 
@@ -216,8 +222,9 @@ def run(c):
         return None if out == want and not esc else {"got": out, "expected": want, "escaped": esc}
     if f == "timer":
         d = delay_of(c["d"])
-        out, esc = record(lambda s: rx.timer(d))
-        want = [(round(secs(c["d"]), 6), "N", 0), (round(secs(c["d"]), 6), "C")]
+        out, esc = record(lambda s: rx.timer(d), horizon=max(50.0, secs(c["d"]) + 10.0))
+        at = max(0.0, secs(c["d"]))
+        want = [(round(at, 6), "N", 0), (round(at, 6), "C")]
         return None if out == want and not esc else {"got": out, "expected": want, "escaped": esc}
     raise SystemExit(f"unknown case {c}")
 
